@@ -7,6 +7,7 @@ import (
 	"net"
 	"os"
 	"reflect"
+	"syscall"
 	"testing"
 	"time"
 
@@ -22,6 +23,8 @@ type fakeConn struct {
 	frames  [][]byte
 	i       int
 	endErr  error
+	faults  map[int]error // before frame #k is handed out, one read fails with this (passing) error
+	calls   int
 	written [][]byte
 	wrAddr  []net.Addr
 }
@@ -31,7 +34,18 @@ type fakeAddr struct{}
 func (fakeAddr) Network() string { return "fake" }
 func (fakeAddr) String() string  { return "fake" }
 
+type timeoutErr struct{}
+
+func (timeoutErr) Error() string   { return "scripted i/o timeout" }
+func (timeoutErr) Timeout() bool   { return true }
+func (timeoutErr) Temporary() bool { return true }
+
 func (c *fakeConn) ReadFrom(b []byte) (int, net.Addr, error) {
+	c.calls++
+	if e, ok := c.faults[c.i]; ok {
+		delete(c.faults, c.i)
+		return 0, nil, e
+	}
 	if c.i >= len(c.frames) {
 		return 0, nil, c.endErr
 	}
@@ -209,6 +223,67 @@ func classify(err error) string {
 	return string(out)
 }
 
+// caseWriteSeq: ONE connection, several writes; the caller keeps one *net.UDPAddr and one payload buffer and changes
+// them in place between the writes.  Every frame is judged like a single write: what was written before leaves no trace.
+func caseWriteSeq(r *mon.Rec, idx int) {
+	rng := r.Rand("writeseq", idx)
+	r.Eval(1)
+	rp := replay{"writeseq", idx}
+	r.Current(rp)
+	src := ip4(rng)
+	sp := port(rng)
+	fc := &fakeConn{}
+	bound := &net.UDPAddr{IP: net.IP(append([]byte{}, src[:]...)), Port: sp}
+	if rng.IntN(4) == 0 {
+		bound, src = &net.UDPAddr{Port: sp}, [4]byte{}
+	}
+	dest := &net.UDPAddr{IP: make(net.IP, 4)}
+	buf := make([]byte, 1500)
+	nw := 2 + rng.IntN(7)
+	type sent struct {
+		dst     [4]byte
+		dp      int
+		payload []byte
+	}
+	var sents []sent
+	pan, val, st := mon.Guard(func() {
+		c := nclient4.NewBroadcastUDPConn(fc, bound)
+		for k := 0; k < nw; k++ {
+			if k == 0 || rng.IntN(3) != 0 { // change the destination in place (same object, same backing array)
+				d := ip4(rng)
+				copy(dest.IP, d[:])
+			}
+			if rng.IntN(2) == 0 {
+				dest.Port = port(rng)
+			}
+			n := []int{0, 1, 2, 7, 240, 300, 301, 548, 1399, 1400}[rng.IntN(10)] + rng.IntN(3)
+			copy(buf, payloadOf(rng, n, 4))
+			var d [4]byte
+			copy(d[:], dest.IP)
+			sents = append(sents, sent{d, dest.Port, append([]byte{}, buf[:n]...)})
+			if _, err := c.WriteTo(buf[:n], dest); err != nil {
+				panic(fmt.Sprintf("write #%d: %v", k, err))
+			}
+		}
+	})
+	if pan {
+		r.Violate("C18:write-panic:"+mon.LibFrame(st), fmt.Sprint(val), rp)
+		return
+	}
+	if len(fc.written) != len(sents) {
+		r.Violate("C18:write-count", fmt.Sprintf("%d writes on one connection, %d frames emitted", len(sents), len(fc.written)), rp)
+		return
+	}
+	for k, sn := range sents {
+		if _, err := refframe.ValidateWritten(fc.written[k], src, sn.dst, sp, sn.dp, sn.payload); err != nil {
+			r.Violate("C18:frame-invalid:"+classify(err), fmt.Sprintf("write #%d of %d on one connection (destination object and payload buffer re-used and changed in place), %d bytes to %v:%d: %v", k, len(sents), len(sn.payload), sn.dst, sn.dp, err), rp)
+			return
+		}
+	}
+	r.Shape(fmt.Sprintf("wseq n=%d b=%v", nw, bound.IP == nil), true)
+	r.Count("sequence_writes_checked", len(sents))
+}
+
 var errScript = errors.New("scripted read error")
 
 // read side: a sequence of frames.
@@ -305,6 +380,23 @@ func caseRead(r *mon.Rec, idx int, gray bool) {
 		frames = append(frames, b)
 	}
 	fc := &fakeConn{frames: frames, endErr: errScript}
+	nfaults := 0
+	if !gray && rng.IntN(3) == 0 {
+		// passing faults between frames (an expired read deadline, the interface going down for a moment): the caller
+		// keeps reading; the frames that arrive afterwards are frames like any other
+		fc.faults = map[int]error{}
+		for k := rng.IntN(3) + 1; k > 0; k-- {
+			var e error = &net.OpError{Op: "read", Net: "packet", Err: timeoutErr{}}
+			switch rng.IntN(3) {
+			case 0:
+				e = timeoutErr{}
+			case 1:
+				e = &net.OpError{Op: "read", Net: "packet", Err: syscall.ENETDOWN}
+			}
+			fc.faults[rng.IntN(len(frames)+1)] = e
+		}
+		nfaults = len(fc.faults)
+	}
 	var bound *net.UDPAddr
 	if boundIP != nil {
 		bound = &net.UDPAddr{IP: net.IP(boundIP[:]), Port: boundPort}
@@ -316,12 +408,17 @@ func caseRead(r *mon.Rec, idx int, gray bool) {
 		err error
 	}
 	var gots []got
+	passing := 0
 	var addrs []net.Addr // the addresses as returned: read again after all later reads (the caller keeps them)
 	pan, val, st := mon.Guard(func() {
 		c := nclient4.NewBroadcastUDPConn(fc, bound)
 		buf := make([]byte, 1500)
-		for k := 0; k < len(frames)+2; k++ {
+		for k := 0; k < len(frames)+nfaults+2; k++ {
 			n, addr, err := c.ReadFrom(buf)
+			if err != nil && nfaults > 0 && !errors.Is(err, errScript) && fc.calls < 4*(len(frames)+nfaults+2) {
+				passing++ // how a passing fault is reported (or retried) is not laid down; what arrives afterwards is
+				continue
+			}
 			if err != nil {
 				gots = append(gots, got{err: err})
 				return
@@ -361,7 +458,11 @@ func caseRead(r *mon.Rec, idx int, gray bool) {
 	// expected: the deliverable datagrams in order, then the scripted error
 	for i, w := range want {
 		if i >= len(gots) || gots[i].err != nil {
-			r.Violate("C18:read-missing", fmt.Sprintf("well-formed frame #%d for the bound port was not returned (sequence %s); reader stopped with %v after %d datagrams", i, kinds, gots[len(gots)-1].err, len(gots)-1), rp)
+			var lastErr error
+			if len(gots) > 0 {
+				lastErr = gots[len(gots)-1].err
+			}
+			r.Violate("C18:read-missing", fmt.Sprintf("well-formed frame #%d for the bound port was not returned (sequence %s, %d passing read faults injected, %d reported); reader stopped with %v after %d datagrams", i, kinds, nfaults, passing, lastErr, len(gots)), rp)
 			return
 		}
 		g := gots[i].d
@@ -374,7 +475,7 @@ func caseRead(r *mon.Rec, idx int, gray bool) {
 			return
 		}
 	}
-	if len(gots) != len(want)+1 {
+	if len(gots) == 0 || len(gots) != len(want)+1 {
 		r.Violate("C18:read-extra", fmt.Sprintf("%d datagrams returned, %d frames were deliverable (sequence %s)", len(gots)-1, len(want), kinds), rp)
 		return
 	}
@@ -384,6 +485,8 @@ func caseRead(r *mon.Rec, idx int, gray bool) {
 	}
 	r.Shape("r "+kinds, len(frames) >= 2)
 	r.Count("frames_fed", len(frames))
+	r.Count("passing_read_faults_reported", passing)
+	r.Count("passing_read_faults_injected", nfaults)
 	r.Count("datagrams_delivered", len(want))
 	if r.NSamples() < 5 && len(frames) <= 4 && len(frames) >= 2 {
 		r.Sample(map[string]any{"stream": "read", "idx": idx, "frame_kinds": kinds, "delivered": len(want), "bound_port": boundPort})
@@ -402,12 +505,19 @@ func TestCheck(t *testing.T) {
 		switch rp.Stream {
 		case "write":
 			caseWrite(r, rp.Idx)
+		case "writeseq":
+			caseWriteSeq(r, rp.Idx)
 		case "read":
 			caseRead(r, rp.Idx, false)
 		default:
 			caseRead(r, rp.Idx, true)
 		}
 		return
+	}
+	for i := 0; i < r.Pick(3000, 200000); i++ {
+		if r.Mine(i) {
+			caseWriteSeq(r, i)
+		}
 	}
 	for n := 0; n <= 1500; n++ {
 		if r.Mine(n) {
